@@ -153,6 +153,12 @@ def pairs(ck, em, rng, count):
             if np.all(np.isfinite(np.asarray(k1.centroids_))):
                 fact("KMeans.centroids", rel((np.asarray(k2.centroids_) - tv) / s @ Q.T, k1.centroids_, 1e-6))
                 fact("KMeans.criterion", rel([k2.average_min_distance / s ** 2], [k1.average_min_distance], 1e-6))
+            # trained to convergence (the stopping rule is relative, so the units must not matter)
+            s3 = float(10.0 ** r.uniform(-4.5, 3))
+            k3 = em.KMeansMachine(K, init_method=init.copy(), max_iter=200, convergence_threshold=1e-5).fit(X)
+            k4 = em.KMeansMachine(K, init_method=init * s3, max_iter=200, convergence_threshold=1e-5).fit(X * s3)
+            if np.all(np.isfinite(np.asarray(k3.centroids_))):
+                fact("KMeans.converged_centroids", rel(np.asarray(k4.centroids_) / s3, k3.centroids_, 1e-6), "scale %g" % s3)
             # ---- linear scoring
             u1, u2 = mk(mu0, v0), mk(mu0 * a + b, v0 * a ** 2)
             models = r.normal(size=(2, C, D)) * 2
